@@ -42,13 +42,16 @@ PairClauses(e) ==
   \cup (IF e.na \notin {-1, e.niter} \/ e.nb \notin {-1, e.niter} THEN {"callback-count"} ELSE {})
 
 (* --------------------------- exact ------------------------------------- *)
-\* reference states after 1..n iterations
-RefStates(I, n) ==
-  LET st[j \in 0..n] == IF j = 0 THEN RefInit(I) ELSE RefStep(I, st[j - 1]) IN st
+\* (TLC passes operator arguments lazily and re-evaluates them at every use; the bound variable of a
+\* quantifier over a singleton set is evaluated once - this keeps a run of n iterations linear in n)
+RECURSIVE ExactMismatch(_, _, _, _)
+ExactMismatch(I, s, xs, j) ==
+  IF j > Len(xs) THEN FALSE
+  ELSE \E s1 \in {RefStep(I, s)} :
+         (xs[j] # <<>> /\ xs[j] # s1.x) \/ ExactMismatch(I, s1, xs, j + 1)
 ExactClauses(e) ==
-  LET st == RefStates(e.inst, e.nit) IN
   (IF Len(e.xs) # e.nit THEN {"length"} ELSE {})
-  \cup (IF \E j \in 1..Min2i(Len(e.xs), e.nit) : e.xs[j] # <<>> /\ e.xs[j] # st[j].x THEN {"textbook"} ELSE {})
+  \cup (IF \E s0 \in {RefInit(e.inst)} : ExactMismatch(e.inst, s0, e.xs, 1) THEN {"textbook"} ELSE {})
   \cup (IF e.ncb \notin {-1, e.nit} THEN {"callback-count"} ELSE {})
 
 (* --------------------------- mono -------------------------------------- *)
